@@ -25,7 +25,6 @@ Notation KE := (KEg c true).
 Notation KA := (KEg c false).
 
 Hypothesis Hrule : pert_free (o_rule oA).
-Hypothesis Hauto : o_auto_abs oA = false.
 Hypothesis Hwabs : forall w, w_abs c w = [].
 Hypothesis Hfabs : forall f, f_abs c f = [].
 Hypothesis HF : Forest c.
@@ -57,9 +56,9 @@ Lemma time_half o s : time (half o s) = time s.
 Proof. unfold half. rewrite (time_step_perform c o), (time_step_allocate c o). reflexivity. Qed.
 
 (* an absence step of run A *)
-Lemma absence_half u : mem (time u) L = true -> KA (half oA u) u.
+Lemma absence_half u : o_auto_abs oA = false -> mem (time u) L = true -> KA (half oA u) u.
 Proof.
-  intros Hm. unfold half. rewrite step_perform_flag, (time_step_allocate c oA), step_allocate_flag, Hm. cbn [negb].
+  intros Hauto Hm. unfold half. rewrite step_perform_flag, (time_step_allocate c oA), step_allocate_flag, Hm. cbn [negb].
   unfold sp_flag, sa_flag. rewrite Hauto. cbn [orb].
   apply (KE_trans c false _ (absence_update c false u)); [apply KE_weaken; apply add_cost_key|].
   unfold absence_update. split; [reflexivity|]. split; [|split; [|split; reflexivity]].
@@ -102,6 +101,12 @@ Proof.
 Qed.
 
 (* ----------------------------------------------------------- simulation *)
+(* what makes an absence step a stutter is left open: an invariant Iv of the
+   loop heads of run A under which the step keeps the key *)
+Variable Iv : pstate -> Prop.
+Hypothesis Iv_next : forall x, Iv x -> Iv (next oA (update c oA x)).
+Hypothesis Iv_stutter : forall x, Iv x -> mem (time x) L = true -> KA (half oA (update c oA x)) (update c oA x).
+
 Definition R (ra rb : row) : Prop := fst ra = true /\ fst rb = true /\ KE (snd ra) (snd rb).
 
 Definition HeadRel (x y : pstate) : Prop :=
@@ -109,11 +114,11 @@ Definition HeadRel (x y : pstate) : Prop :=
   \/ (KA (update c oA x) (update c oA y) /\ all_finished c (update c oA x) = false).
 
 Lemma sim x trA fA : trace_from c oA x trA fA -> status fA = StSuccess ->
-  forall y, PInv x -> HeadRel x y -> time y <= time x ->
+  forall y, Iv x -> PInv x -> HeadRel x y -> time y <= time x ->
   exists trB fB, trace_from c oB y trB fB /\ status fB = StSuccess /\ KE fA fB
                  /\ Forall2 R (keep L (time x) (perf_rows oA trA)) (perf_rows oB trB).
 Proof.
-  induction 1 as [x Ha|x Ha Hm|x rest fA Ha Hm s1 sa sp sr Hrest IH]; intros Hst y HP HR Hty.
+  induction 1 as [x Ha|x Ha Hm|x rest fA Ha Hm s1 sa sp sr Hrest IH]; intros Hst y HI HP HR Hty.
   - destruct HR as [HR|[_ HR]]; [|rewrite Ha in HR; discriminate].
     exists [(time (update c oB y), PUpdated, update c oB y)], (with_status (update c oB y) StSuccess).
     split; [apply tr_success; change (update c oB y) with (update c oA y); rewrite <- (all_finished_KE _ _ _ HR); exact Ha|].
@@ -135,8 +140,9 @@ Proof.
     destruct (mem (time x) L) eqn:Em.
     + (* absence step: run B waits *)
       assert (HK : KA (next oA s1) s1).
-      { eapply KE_trans; [apply KE_weaken; apply next_key|]. apply absence_half. rewrite Et. exact Em. }
+      { eapply KE_trans; [apply KE_weaken; apply next_key|]. apply Iv_stutter; assumption. }
       destruct (IH Hst y) as (trB & fB & HtB & HsB & HfB & Hrows).
+      * apply Iv_next. exact HI.
       * apply PInv_next. exact HP1.
       * right. split.
         -- eapply KE_trans; [apply update_KE; exact HK|].
@@ -155,6 +161,7 @@ Proof.
       assert (Etnv : time (next oB v) = S (time y)).
       { unfold next. cbn [time with_time]. rewrite (time_step_record c oB), time_half. rewrite Etv. reflexivity. }
       destruct (IH Hst (next oB v)) as (trB & fB & HtB & HsB & HfB & Hrows).
+      * apply Iv_next. exact HI.
       * apply PInv_next. exact HP1.
       * left. apply update_KE. exact HKn.
       * rewrite Etn, Etnv. lia.
